@@ -330,7 +330,8 @@ def gen_membership_op(rng, st):
             if not (st.crates[c]["alive"] and st.tracks[t]):
                 c, t = rng.choice(lc), rng.choice(lt)
         st.members.add((c, t))
-        return {"op": "add_track", "c": c, "t": t}, {"kind": "add_track", "c": c, "t": t}
+        # both overloads: add_track(track) and add_track(int64_t id)
+        return {"op": "add_track" if rng.random() < 0.7 else "add_track_via_id", "c": c, "t": t}, {"kind": "add_track", "c": c, "t": t}
     if r < 0.78:
         c, t = rng.choice(lc), rng.choice(lt)
         if st.members and rng.random() < 0.7:
